@@ -44,6 +44,7 @@ func (srv *Srv) NewConn(c net.Conn) {
 }
 
 func (conn *Conn) close() {
+	verifPoint("close_enter", conn, nil)
 	conn.done <- true
 	conn.Srv.Lock()
 	delete(conn.Srv.conns, conn)
@@ -56,6 +57,7 @@ func (conn *Conn) close() {
 		op.ConnClosed(conn)
 	}
 
+	verifPoint("close_destroy", conn, nil)
 	/* call FidDestroy for all remaining fids */
 	if op, ok := (conn.Srv.ops).(SrvFidOps); ok {
 		for _, fid := range conn.fidpool {
@@ -83,6 +85,7 @@ func (conn *Conn) recv() {
 			return
 		}
 
+		verifPoint("recv_read", conn, nil, n, pos, len(buf))
 		pos += n
 		for pos > 4 {
 			sz, _ := Gint32(buf)
@@ -109,6 +112,7 @@ func (conn *Conn) recv() {
 				return
 			}
 
+			verifPoint("recv_parsed", conn, nil, fcsize, pos, len(buf))
 			tag := fc.Tag
 			req := new(SrvReq)
 			select {
@@ -158,6 +162,7 @@ func (conn *Conn) recv() {
 				}
 			}
 
+			verifPoint("recv_advance", conn, req, fcsize, pos, len(buf))
 			buf = buf[fcsize:]
 			pos -= fcsize
 		}
@@ -172,6 +177,7 @@ func (conn *Conn) send() {
 			return
 
 		case req := <-conn.reqout:
+			verifPoint("send_got", conn, req)
 			SetTag(req.Rc, req.Tc.Tag)
 			conn.Lock()
 			conn.rsz += uint64(req.Rc.Size)
